@@ -167,17 +167,176 @@ Theorem keys_agree p client_nonce server_nonce :
   local_keys sk = spec_keys p server_nonce client_nonce.
 Proof. cbn. repeat split; apply make_keys_spec. Qed.
 
-(* ---- list helpers for the correspondence form ---- *)
+(* ================= hmac_vec: the empty key ================= *)
+Definition hash_of (a : hash_alg) : list byte -> list byte := match a with HSha1 => sha1 | HSha256 => sha256 end.
+Lemma mac_of_hmac a : mac_of a = hmac (hash_of a).
+Proof. destruct a; reflexivity. Qed.
+
+(* RFC 2104 pads the key with zeros to the block size: one zero byte is the empty key *)
+Lemma hmac_key_vec h key : hmac_key h (hmac_vec_key key) = hmac_key h key.
+Proof. destruct key as [|b key]; reflexivity. Qed.
+
+(* T6: the MAC hash.rs computes (empty key replaced by [0]) is HMAC of the key given, for every
+   key and message *)
+Theorem mac_impl_is_hmac a key msg : mac_impl a key msg = mac_of a key msg.
+Proof. unfold mac_impl. rewrite mac_of_hmac. unfold hmac. rewrite hmac_key_vec. reflexivity. Qed.
+
+Section Ext.
+  Variables hm1 hm2 : list byte -> list byte -> list byte.
+  Hypothesis Hext : forall k m, hm1 k m = hm2 k m.
+  Lemma p_sha_loop_ext secret seed len : forall fuel result a_last,
+    p_sha_loop hm1 fuel secret seed len result a_last = p_sha_loop hm2 fuel secret seed len result a_last.
+  Proof.
+    induction fuel as [|f IH]; intros result a_last; [reflexivity|].
+    cbn [p_sha_loop]. destruct (Nat.ltb (length result) len); [|reflexivity].
+    rewrite !Hext. apply IH.
+  Qed.
+  Lemma prf_ext secret seed len off : prf hm1 secret seed len off = prf hm2 secret seed len off.
+  Proof. unfold prf, p_sha_impl. rewrite p_sha_loop_ext. reflexivity. Qed.
+End Ext.
+
+Theorem make_keys_impl_eq p secret seed : make_keys_impl p secret seed = make_keys p secret seed.
+Proof.
+  unfold make_keys_impl, make_keys.
+  replace (map (slice_impl p secret seed) src_slices) with (map (slice p secret seed) src_slices); [reflexivity|].
+  apply map_ext. intro s. unfold slice_impl, slice. symmetry.
+  apply prf_ext. apply mac_impl_is_hmac.
+Qed.
+
+(* ================= histories of exchanges on one pair of channels ================= *)
+Local Open Scope Z_scope.
 Lemma list_eqb_refl l : list_eqb l l = true.
 Proof. induction l as [|x l IH]; cbn; [reflexivity|]. rewrite Z.eqb_refl. exact IH. Qed.
 
-Theorem run_eq_spec c : run c = spec c.
+(* what the oracle tracks of a channel: both key sets, or nothing *)
+Definition view (c : chan) : option (key_set * key_set) :=
+  match ch_lkeys c, ch_rkeys c with Some l, Some r => Some (l, r) | _, _ => None end.
+(* local_keys and remote_keys are only ever assigned together *)
+Definition chan_wf (c : chan) : Prop := (ch_lkeys c = None <-> ch_rkeys c = None).
+
+Lemma obs_chan_view c : chan_wf c -> obs_chan c = enc_side (view c).
 Proof.
-  unfold run, spec. cbn [derive_keys local_keys remote_keys]. rewrite !make_keys_spec. reflexivity.
+  unfold chan_wf, obs_chan, view, chan_used, enc_side.
+  destruct (ch_lkeys c) as [[[ls le] li]|], (ch_rkeys c) as [[[rs re] ri]|]; intros [H1 H2].
+  - cbn [enc_opt enc_used]. rewrite <- ?app_assoc. reflexivity.
+  - specialize (H2 eq_refl). discriminate.
+  - specialize (H1 eq_refl). discriminate.
+  - reflexivity.
 Qed.
+
+Lemma src_nonce_length_spec p : src_nonce_length p = spec_nonce_length p.
+Proof. destruct p; reflexivity. Qed.
+
+Lemma to_bytes_length l : length (to_bytes l) = length l.
+Proof. apply map_length. Qed.
+
+Ltac fin := split; [assumption | split; [reflexivity | first [assumption | reflexivity]]].
+(* one side of one exchange: own nonce [own], the peer's [peer] *)
+Lemma side_step_spec p mode own peer c :
+  chan_wf c ->
+  let '(st, c') := side_step p mode (to_bytes own) (to_bytes peer) c in
+  chan_wf c' /\
+  st = (if accepts p mode peer then 0 else 1) /\
+  view c' = (if accepts p mode peer
+             then Some (spec_keys p (to_bytes own) (to_bytes peer), spec_keys p (to_bytes peer) (to_bytes own))
+             else view c).
+Proof.
+  intro Hwf. unfold side_step, peer_nonce_in, accepts.
+  assert (Hd : forall c0, ch_policy c0 = p -> ch_local c0 = to_bytes own -> ch_remote c0 = to_bytes peer ->
+            chan_wf (chan_derive c0) /\
+            view (chan_derive c0) = Some (spec_keys p (to_bytes own) (to_bytes peer), spec_keys p (to_bytes peer) (to_bytes own))).
+  { intros c0 Hp Hl Hr. split.
+    - unfold chan_wf, chan_derive. cbn. split; discriminate.
+    - unfold view, chan_derive. cbn [ch_lkeys ch_rkeys]. rewrite Hp, Hl, Hr, !make_keys_impl_eq, !make_keys_spec. reflexivity. }
+  destruct (mode =? 0) eqn:E0.
+  - cbn [orb Z.eqb]. destruct (Hd (set_remote (to_bytes peer) (set_local (to_bytes own) (set_policy p c)))) as [W V]; try reflexivity.
+    cbn [Z.eqb]. fin.
+  - cbn [orb]. destruct (mode =? 1) eqn:E1; cbn [andb].
+    + unfold set_remote_bs. cbn [ch_policy set_local set_policy].
+      rewrite src_nonce_length_spec, to_bytes_length.
+      destruct (Nat.eqb (length peer) (spec_nonce_length p)).
+      * destruct (Hd (set_remote (to_bytes peer) (set_local (to_bytes own) (set_policy p c)))) as [W V]; try reflexivity.
+        cbn [Z.eqb]. fin.
+      * cbn [Z.eqb]. fin.
+    + unfold set_remote_bs. cbn [Z.eqb]. fin.
+Qed.
+
+(* T7: every history, from every (well-formed) state of the two channels *)
+Theorem run_rounds_spec rs : forall client server,
+  chan_wf client -> chan_wf server ->
+  run_rounds client server rs = spec_rounds (view client) (view server) rs.
+Proof.
+  induction rs as [|r rs IH]; intros client server Hc Hs; [reflexivity|].
+  cbn [run_rounds spec_rounds].
+  pose proof (side_step_spec (r_policy r) (r_mode r) (r_client_nonce r) (r_server_nonce r) client Hc) as H1.
+  pose proof (side_step_spec (r_policy r) (r_mode r) (r_server_nonce r) (r_client_nonce r) server Hs) as H2.
+  destruct (side_step (r_policy r) (r_mode r) (to_bytes (r_client_nonce r)) (to_bytes (r_server_nonce r)) client) as [stc c'].
+  destruct (side_step (r_policy r) (r_mode r) (to_bytes (r_server_nonce r)) (to_bytes (r_client_nonce r)) server) as [sts s'].
+  destruct H1 as (W1 & S1 & V1). destruct H2 as (W2 & S2 & V2).
+  rewrite (IH c' s' W1 W2), (obs_chan_view c' W1), (obs_chan_view s' W2), S1, S2, V1, V2.
+  reflexivity.
+Qed.
+
+Lemma chan_new_wf p : chan_wf (chan_new p).
+Proof. unfold chan_wf, chan_new. cbn. tauto. Qed.
+
+Theorem run_eq_spec c : run c = spec c.
+Proof. unfold run, spec. apply run_rounds_spec; apply chan_new_wf. Qed.
 
 Theorem oracle_holds c : oracle c (run c) = true.
 Proof. unfold oracle. rewrite run_eq_spec. apply list_eqb_refl. Qed.
+
+Lemma end_state_wf rs : forall client server, chan_wf client -> chan_wf server ->
+  chan_wf (fst (end_state client server rs)) /\ chan_wf (snd (end_state client server rs)).
+Proof.
+  induction rs as [|x rs IH]; intros client server Hc Hs; [split; assumption|].
+  cbn [end_state].
+  pose proof (side_step_spec (r_policy x) (r_mode x) (r_client_nonce x) (r_server_nonce x) client Hc) as H1.
+  pose proof (side_step_spec (r_policy x) (r_mode x) (r_server_nonce x) (r_client_nonce x) server Hs) as H2.
+  destruct (side_step (r_policy x) (r_mode x) (to_bytes (r_client_nonce x)) (to_bytes (r_server_nonce x)) client) as [a c1].
+  destruct (side_step (r_policy x) (r_mode x) (to_bytes (r_server_nonce x)) (to_bytes (r_client_nonce x)) server) as [b s1].
+  cbn [snd]. apply IH; [apply H1 | apply H2].
+Qed.
+
+Lemma end_state_app rs1 : forall rs2 client server,
+  end_state client server (rs1 ++ rs2) =
+  end_state (fst (end_state client server rs1)) (snd (end_state client server rs1)) rs2.
+Proof.
+  induction rs1 as [|x rs1 IH]; intros rs2 client server; [reflexivity|].
+  cbn [app end_state]. apply IH.
+Qed.
+
+Lemma view_used c k : view c = Some k -> chan_used c = Some k.
+Proof.
+  destruct k as [l0 r0]. unfold view, chan_used.
+  destruct (ch_lkeys c) as [[[? ?] ?]|], (ch_rkeys c) as [[[? ?] ?]|]; try discriminate.
+  intro H; inversion H; reflexivity.
+Qed.
+
+(* T8: the keys each side USES after any history whose last exchange was accepted by both sides
+   are the Part 6 keys of that last exchange - nothing survives from earlier exchanges - and what
+   one side secures with is what the other verifies with *)
+Theorem keys_after_history rs r client server :
+  chan_wf client -> chan_wf server ->
+  let p := r_policy r in
+  let cn := to_bytes (r_client_nonce r) in let sn := to_bytes (r_server_nonce r) in
+  accepts p (r_mode r) (r_server_nonce r) = true -> accepts p (r_mode r) (r_client_nonce r) = true ->
+  chan_used (fst (end_state client server (rs ++ [r]))) = Some (spec_keys p cn sn, spec_keys p sn cn) /\
+  chan_used (snd (end_state client server (rs ++ [r]))) = Some (spec_keys p sn cn, spec_keys p cn sn).
+Proof.
+  intros Hc Hs p cn sn A1 A2. rewrite end_state_app.
+  destruct (end_state_wf rs client server Hc Hs) as [W1 W2].
+  set (c0 := fst (end_state client server rs)) in *. set (s0 := snd (end_state client server rs)) in *.
+  cbn [end_state fst snd].
+  pose proof (side_step_spec (r_policy r) (r_mode r) (r_client_nonce r) (r_server_nonce r) c0 W1) as H1.
+  pose proof (side_step_spec (r_policy r) (r_mode r) (r_server_nonce r) (r_client_nonce r) s0 W2) as H2.
+  destruct (side_step (r_policy r) (r_mode r) (to_bytes (r_client_nonce r)) (to_bytes (r_server_nonce r)) c0) as [a c1].
+  destruct (side_step (r_policy r) (r_mode r) (to_bytes (r_server_nonce r)) (to_bytes (r_client_nonce r)) s0) as [b s1].
+  cbn [snd]. destruct H1 as (_ & _ & V1). destruct H2 as (_ & _ & V2).
+  fold p in V1, V2. rewrite A1 in V1. rewrite A2 in V2.
+  split; apply view_used; assumption.
+Qed.
+Local Close Scope Z_scope.
 
 (* ================= different nonces, different keys — as a reduction ================= *)
 (* Literally "different nonces give different keys" cannot hold of any function from unbounded
@@ -261,9 +420,6 @@ Section Distinct.
   Qed.
 End Distinct.
 
-Definition hash_of (a : hash_alg) : list byte -> list byte := match a with HSha1 => sha1 | HSha256 => sha256 end.
-Lemma mac_of_hmac a : mac_of a = hmac (hash_of a).
-Proof. destruct a; reflexivity. Qed.
 Lemma hash_of_len a x : length (hash_of a x) = mac_len a.
 Proof. destruct a; [apply sha1_len | apply sha256_len]. Qed.
 
